@@ -84,8 +84,8 @@ def settings_from_config(config):
         "clearRegionsAfterPrintFinishes": bool(config.get("clear_after_print")),
         "mayShrinkRegionsWhilePrinting": bool(config.get("may_shrink")),
         "loggingMode": "octoprint",
-        "enteringExcludedRegionGcode": config.get("enter_script"),
-        "exitingExcludedRegionGcode": config.get("exit_script"),
+        "enteringExcludedRegionGcode": config.get("enter_script", "\n".join(config["enter"]) if config.get("enter") else None),
+        "exitingExcludedRegionGcode": config.get("exit_script", "\n".join(config["exit"]) if config.get("exit") else None),
         "extendedExcludeGcodes": ext_list,
         "atCommandActions": at_list,
     }
